@@ -281,6 +281,8 @@ class SetVal(Contract):
     def configs(self, tier):
         fm = self.formats(tier)
         small = [(s, n, f) for (s, n, f) in core_formats('quick') if n in (1, 3, 8, 52)]
+        if tier == 'quick':
+            small = [(s, n, f) for (s, n, f) in small if f in (-8, 0, n // 2, n + 8)][::2] + [(True, 8, 2), (False, 8, 3)]
         for (signed, n, f) in fm:
             for (rule, mode) in MODES:
                 yield dict(signed=signed, n_word=n, n_frac=f, rule=rule, mode=mode, carrier='pyfloat', shape=[], raw=False, index=None)
